@@ -198,6 +198,69 @@ pub fn cut_layouts(_tier: Tier) -> Vec<(String, Vec<u8>)> {
     vec![("co64+ctts+stss+elst1+metadata, moov last".into(), encode(&m2).0), ("K1 (moov first, metadata, trailing free)".into(), k1()), ("K4 (fragmented, emsg)".into(), k4()), ("moov first + trailing free".into(), serialize(&nodes).0), ("K3 (mdat first, QuickTime meta)".into(), k3())]
 }
 
+/// Movie-header-last files in which every box of the movie header in turn is the LAST box of the file (it and each of
+/// its ancestors moved behind their siblings): a cut inside that box is then parsed with everything before it intact,
+/// whatever kind of box it is.  Returns (name, bytes, first cut position worth exploring = start of moov).
+pub fn cut_last_box_variants() -> Vec<(String, Vec<u8>, usize)> {
+    let mut a = LTrack::simple(1, Codec::Avc, 1000, samples(5), vec![2, 1, 2]);
+    a.ctts = Some(0);
+    a.stss = true;
+    a.edts = Some(0);
+    let mut b = LTrack::simple(2, Codec::Aac, 48000, samples(5), vec![1, 2, 2]);
+    b.co64 = true;
+    let mut m = LMovie::new(1000, vec![a, b]);
+    m.mdat_first = true;
+    m.mdat_lead = 2500;
+    m.moov_extra = vec![itunes_meta(true)];
+    let base = nodes(&m);
+    let moov_idx = base.iter().position(|n| &n.cc == b"moov").unwrap();
+    fn paths(n: &Node, cur: &mut Vec<usize>, out: &mut Vec<Vec<usize>>) {
+        out.push(cur.clone());
+        if let Some(k) = n.children() {
+            for (i, c) in k.iter().enumerate() {
+                cur.push(i);
+                paths(c, cur, out);
+                cur.pop();
+            }
+        }
+    }
+    let mut all = vec![];
+    paths(&base[moov_idx], &mut vec![], &mut all);
+    let mut out = vec![];
+    for p in all.iter().filter(|p| !p.is_empty()) {
+        let mut v = base.clone();
+        let mut name = String::from("moov");
+        {
+            let mut n = &mut v[moov_idx];
+            for &i in p.iter() {
+                let kids = n.children_mut().unwrap();
+                let x = kids.remove(i);
+                name.push('/');
+                name.push_str(&x.name());
+                kids.push(x);
+                n = kids.last_mut().unwrap();
+            }
+        }
+        let (bytes, anchors) = serialize(&v);
+        let _ = anchors;
+        let moov_start = {
+            let mut pos = 0usize;
+            let mut start = 0usize;
+            while pos + 8 <= bytes.len() {
+                let s = u32::from_be_bytes([bytes[pos], bytes[pos + 1], bytes[pos + 2], bytes[pos + 3]]) as usize;
+                if &bytes[pos + 4..pos + 8] == b"moov" {
+                    start = pos;
+                    break;
+                }
+                pos += s.max(8);
+            }
+            start
+        };
+        out.push((format!("moov last, last box of the file = {}", name), bytes, moov_start));
+    }
+    out
+}
+
 /// Extra files for the fault sweep of C10: (name, bytes).
 pub fn fault_files(_tier: Tier) -> Vec<(String, Vec<u8>)> {
     vec![("K1".into(), k1()), ("K2".into(), k2()), ("K3".into(), k3()), ("K4".into(), k4())]
